@@ -145,14 +145,24 @@ theorem witness_rigor {P : Problem} {R : Run} {res : Result} (h : witness P R re
     split_ifs at h with h1 h2 h3
     exact ⟨by simpa using h1, fun ρ hρ => witRigor_sound h3 hρ⟩
 
+/-- rigor mode: the witness is judged against the ORIGINAL problem (`witProblem`): a point returned in rigor mode satisfies
+    every equality EXACTLY (`epsH = 0`), not within the relaxation `eps_h` -/
+theorem witness_exact_rigor {P : Problem} {R : Run} {res : Result} (hr : R.rigor = true)
+    (h : witness (witProblem P R) R res = .exact) :
+    ∃ p, pointOf res.lp = some p ∧ Feasible { P with epsH := 0 } (castPt p) ∧
+      ∃ v, RealVal P.obj (castPt p) v ∧ ((v : ℝ) : EReal) ≤ res.loup.toE := by
+  have hP : witProblem P R = { P with epsH := 0 } := by simp [witProblem, hr]
+  rw [hP] at h
+  exact witness_exact h
+
 /-- an accepted result has a verified witness as soon as `loup` is below the initial loup -/
 theorem witness_due {P : Problem} {R : Run} {res : Result} {pts : List (List ℚ)}
     (h : resultOk P R res pts = true) (hl : res.loup.toE < R.initLoup.toE) :
-    witness P R res = .exact ∨ witness P R res = .interval ∨ witness P R res = .rigorBox := by
+    witness (witProblem P R) R res = .exact ∨ witness (witProblem P R) R res = .interval ∨ witness (witProblem P R) R res = .rigorBox := by
   simp only [resultOk, Bool.and_eq_true] at h
   have hw := h.2
   have hlt : Ext.lt res.loup R.initLoup = true := (Ext.lt_iff _ _).2 hl
-  cases hwit : witness P R res with
+  cases hwit : witness (witProblem P R) R res with
   | exact => exact Or.inl rfl
   | interval => exact Or.inr (Or.inl rfl)
   | rigorBox => exact Or.inr (Or.inr rfl)
@@ -176,7 +186,7 @@ theorem witness_due {P : Problem} {R : Run} {res : Result} {pts : List (List ℚ
 theorem success_precision {P : Problem} {R : Run} {res : Result} {pts : List (List ℚ)}
     (h : resultOk P R res pts = true) (hs : res.status = "SUCCESS") :
     Precision (R.relEps : ℝ) (R.absEps : ℝ) res.uplo res.loup ∧
-      (witness P R res = .exact ∨ witness P R res = .interval ∨ witness P R res = .rigorBox) := by
+      (witness (witProblem P R) R res = .exact ∨ witness (witProblem P R) R res = .interval ∨ witness (witProblem P R) R res = .rigorBox) := by
   have h' := h
   simp only [resultOk, Bool.and_eq_true] at h
   obtain ⟨hp, hl⟩ := statusOk_success h.1.1.1.2 hs
